@@ -158,30 +158,38 @@ def run(ctx: Ctx) -> None:
                               "probability of rounding away from zero differs from the fractional position" +
                               (" (all bits: must be exact)" if sb == k else " by more than half a unit of 2^-srbits"),
                               {**key, "x_bits": int(xb[i])}, {"count": int(cnt[i]), "of": R, "fraction": float(frac[i])})
-            jobs.append((E, M, sb, xb, yb, cnt))
+            # keep only what the correspondence needs: sampled draw rows, and per-input multisets of result magnitudes
+            rs_keep = list(range(R)) if R <= 64 else sorted(set([0, 1, R // 2 - 1, R // 2, R - 2, R - 1] + [rng.randrange(R) for _ in range(26)]))
+            sub_cols = list(range(0, n, max(1, n // 64)))
+            colcounts = {}
+            if R <= 4096:
+                for i in sub_cols:
+                    vals_, cnts_ = np.unique(yb[:, i] & np.uint32(0x7FFFFFFF), return_counts=True)
+                    colcounts[i] = dict(zip(vals_.tolist(), cnts_.tolist()))
+            jobs.append((E, M, sb, xb, R, n, {r: yb[r].copy() for r in rs_keep}, colcounts, cnt))
+            del yb, yv, ay, ok_neigh, moved, x, y
     ctx._distinct.update(range(distinct))
     ctx.samples = [{"E": 4, "M": 3, "srbits": 5, "x_bits": 0x3FA66666, "draws": "all 32"}]
 
     # ---- correspondence: identical bit patterns per (x, r); counts vs the model's count
     if ctx.driver_ok:
-        for (E, M, sb, xb, yb, cnt) in jobs:
-            R, n = yb.shape
+        for (E, M, sb, xb, R, n, rows, colcounts, cnt) in jobs:
             if R != (1 << sb):
                 ctx.disagree('draw_range', {'E': E, 'M': M, 'srbits': sb}, 1 << sb, R, THMS)
                 continue
             # per-(x,r) patterns for a slice of the draws (all draws for small R)
-            rs = list(range(R)) if R <= 64 else sorted(set([0, 1, R // 2 - 1, R // 2, R - 2, R - 1] + [ctx.rng.randrange(R) for _ in range(26)]))
+            rs = sorted(rows)
             reqs = [{"k": "quant", "E": E, "M": M, "mode": "sr", "srbits": sb, "r": r, "bits": xb.tolist()} for r in rs]
             for r, resp in zip(rs, driver.ask(reqs, timeout=1200)):
                 mo = np.array(resp["out"], dtype=np.uint32)
-                d = np.nonzero(mo != yb[r])[0]
+                d = np.nonzero(mo != rows[r])[0]
                 if len(d):
                     i = int(d[0])
                     ctx.disagree("quantise_sr_bits", {"E": E, "M": M, "srbits": sb, "r": r, "x_bits": int(xb[i])},
-                                 int(mo[i]), int(yb[r][i]), THMS)
+                                 int(mo[i]), int(rows[r][i]), THMS)
                     break
             if R <= 4096:
-                sub = list(range(0, n, max(1, n // 64)))
+                sub = sorted(colcounts)
                 resp = driver.ask([{"k": "srcount", "E": E, "M": M, "srbits": sb,
                                     "bits": [int(xb[i] & 0x7FFFFFFF) for i in sub]}], timeout=1200)[0]
                 k = 23 - M
@@ -191,7 +199,7 @@ def run(ctx: Ctx) -> None:
                     # the theorem's closed form on the pre-rounding pattern q, and the core count, agree with the
                     # executed model; the implementation's count of draws giving the upper pattern agrees with both
                     formula = ((q % (1 << k)) + S // 2) // S
-                    impl_cnt = int((((yb[:, i] & 0x7FFFFFFF) == up) & (up != fl)).sum())
+                    impl_cnt = colcounts[i].get(up, 0) if up != fl else 0
                     if not (mc == core == formula == impl_cnt):
                         ctx.disagree("sr_count", {"E": E, "M": M, "srbits": sb, "x_bits": int(xb[i])},
                                      {"model": mc, "core": core, "formula": formula}, impl_cnt, THMS)
